@@ -7,9 +7,10 @@
  * buckets and pushes the first one back).  Oracle: c15_pool.h (per block at
  * the moment it is handed out, whole-pool walk at quiescence, ledger).
  *
- * script letters: a = alloc from the own pool, o/n = free the oldest/newest
- * block this actor holds, g = free a gift (a block allocated from another
- * pool during set-up), D = destroy the own pool, I = (re)initialise it. */
+ * script letters: a = alloc from the own pool; digit k = free the k-th oldest
+ * block this actor holds (gifts -- blocks allocated from the other actor's
+ * pool during set-up -- are the oldest); n = free the newest; D = destroy the
+ * own pool; I = (re)initialise it. */
 #include "c15_pool.h"
 
 typedef struct {
@@ -24,31 +25,40 @@ typedef struct {
 
 /* { nper, header_size, header_offset, per_page, page_slack, nlocal } */
 static const cfg_t cfgs[] = {
-    /* 0: LIFO holds 2 single-header buckets; actor 0 pops, actor 1 pops both
-     * and pushes them back in an order that restores the old top (ABA) */
-    { "aba n1: pop vs pop,pop,push,push", 1, { 1, 64, 0, 4, 0, 2 }, 2, 0,
-      { "aa", "aaaonn" } },
-    /* 1: both take from an empty LIFO: concurrent page carving */
-    { "carve n2 page3: aaa | aaa", 1, { 2, 64, 0, 3, 0, 2 }, 0, 0,
-      { "aaao", "aaan" } },
-    /* 2: both return buckets and take them again */
-    { "return/take n1: gggaa | gggaa", 1, { 1, 64, 0, 4, 0, 2 }, 0, 3,
-      { "gggaa", "ggaga" } },
-    /* 3: concurrent destroy (partial-bucket merge under its lock) and init */
-    { "partial n3: aD | aaD", 1, { 3, 64, 0, 4, 8, 2 }, 4, 0,
+    /* 0: the LIFO holds the single-header buckets A,B,C.  Actor 0's first
+     * alloc pops (reads top=A, next=B).  Actor 1 pops A, B and C, then frees
+     * A first so that its pool hands C and then A back: top is A again but B
+     * now sits in actor 1's pool.  Only the tag keeps actor 0's CAS from
+     * installing B as the top. */
+    { "aba n1: aa | aaa100", 1, { 1, 64, 0, 4, 0, 2 }, 2, 0,
+      { "aa", "aaa100" } },
+    /* 1: both take from an empty LIFO: concurrent page carving, page LIFO
+     * and empty-page list */
+    { "carve n2 page3: aaaa0 | aaaan", 1, { 2, 64, 0, 3, 0, 2 }, 0, 0,
+      { "aaaa0", "aaaan" } },
+    /* 2: both return buckets (gifts) and take them again */
+    { "return/take n1: 000aa | 00a0a", 1, { 1, 64, 0, 4, 0, 2 }, 0, 3,
+      { "000aa", "00a0a" } },
+    /* 3: concurrent destroy (partial-bucket merge under its lock) and
+     * re-initialisation against each other */
+    { "partial n3: aDIa | aaDIa", 1, { 3, 64, 0, 4, 8, 2 }, 4, 0,
       { "aDIa", "aaDIa" } },
-    /* 4: destroy against take/return traffic */
-    { "partial n2 vs traffic: aD | gga", 1, { 2, 64, 0, 5, 0, 2 }, 3, 2,
-      { "aDIaa", "ggaa" } },
+    /* 4: destroy/init against take/return traffic */
+    { "partial n2 vs traffic: aDIaa | 00aa0", 1, { 2, 64, 0, 5, 0, 2 }, 3, 2,
+      { "aDIaa", "00aa0" } },
+    /* 5: same ABA pattern with two-header buckets A=(a1,a2),B,C: actor 1
+     * rebuilds bucket A with the same head and pushes it back */
+    { "aba n2: aaa | aaaaaa32000", 1, { 2, 64, 0, 5, 0, 2 }, 6, 0,
+      { "aaa", "aaaaaa32000" } },
     /* thorough only */
-    { "aba n2: aaa | aaaaooon", 0, { 2, 64, 0, 5, 0, 2 }, 4, 0,
-      { "aaa", "aaaaooonn" } },
-    { "3 actors n1: aa | aon | gga", 0, { 1, 64, 0, 4, 0, 3 }, 2, 2,
-      { "aa", "aaon", "gga" } },
-    { "3 actors n2 destroy: aD | aD | aa", 0, { 2, 128, 64, 3, 0, 3 }, 3, 0,
-      { "aD", "aaD", "aaa" } },
-    { "carve n3 page2 + init: Iaa | Iaa", 0, { 3, 64, 0, 2, 40, 2 }, 0, 0,
-      { "Iaa", "Iaa" } },
+    { "3 actors n1: aa | aaa100 | 00a", 0, { 1, 64, 0, 4, 0, 3 }, 2, 2,
+      { "aa", "aaa100", "00a" } },
+    { "3 actors n2 stack-like destroy: aD | aaD | aaa", 0,
+      { 2, 192, 128, 3, 0, 3 }, 3, 0, { "aDIa", "aaD", "aaa0" } },
+    { "carve n3 page2 + init: Iaa | Iaan", 0, { 3, 64, 0, 2, 40, 2 }, 0, 0,
+      { "Iaa0", "Iaan" } },
+    { "aba n1 both sides: aaa10 | aaa100", 0, { 1, 64, 0, 4, 0, 2 }, 3, 0,
+      { "aaa10", "aaa100" } },
 };
 
 static px_t X;
@@ -56,14 +66,17 @@ static const cfg_t *C;
 static char order[64];
 static int norder;
 
-static int pick(int actor, int newest)
+/* index in the live table of the nth-oldest block held by `actor`
+ * (nth < 0: the newest) */
+static int pick(int actor, int nth)
 {
-    int found = -1;
+    int found = -1, c = 0;
     for (int k = 0; k < X.nlive; k++)
         if (X.live[k].holder == actor) {
-            found = k;
-            if (!newest)
-                break;
+            if (nth < 0)
+                found = k;
+            else if (c++ == nth)
+                return k;
         }
     return found;
 }
@@ -81,10 +94,16 @@ static void actor_body(void *arg)
                     order[norder++] = (char)('0' + i);
                 break;
             }
-            case 'o':
             case 'n':
-            case 'g': {
-                int k = pick(i, *s == 'n');
+            default: {
+                int k;
+                if (*s == 'n') {
+                    k = pick(i, -1);
+                } else {
+                    abtmc_check(*s >= '0' && *s <= '9', "harness_error",
+                                "bad script");
+                    k = pick(i, *s - '0');
+                }
                 abtmc_check(k >= 0, "harness_error",
                             "actor %d has nothing to free", i);
                 px_free(&X, i, k);
@@ -99,8 +118,6 @@ static void actor_body(void *arg)
                             "actor %d: init_local_pool returned %d", i, r);
                 break;
             }
-            default:
-                abtmc_check(0, "harness_error", "bad script");
         }
     }
 }
@@ -119,8 +136,6 @@ static void scenario(int cfg)
     /* gifts: actor i will free blocks that came from actor (i+1)%n's pool */
     for (int i = 0; i < n; i++)
         for (int k = 0; k < C->gifts; k++) {
-            if (!strchr(C->script[i], 'g'))
-                break;
             int from = (i + 1) % n;
             abtmc_check(px_alloc(&X, from, NULL) == ABT_SUCCESS,
                         "harness_error", "set-up");
